@@ -164,7 +164,7 @@ func (c *ctrl) IsValidDoubleSigner(_, rh uint64, address []byte) bool {
 	return true
 }
 
-func (c *ctrl) envLine(net, chain uint64) string {
+func (c *ctrl) envLine(net, chain, root uint64) string {
 	var coms, mins, sl []string
 	var rhs []uint64
 	for rh := range c.committees {
@@ -186,7 +186,7 @@ func (c *ctrl) envLine(net, chain uint64) string {
 		sl = append(sl, k)
 	}
 	sort.Strings(sl)
-	return fmt.Sprintf("env net=%d chain=%d coms=%s mins=%s slashed=%s", net, chain, dash(strings.Join(coms, "+")), dash(strings.Join(mins, ",")), dash(strings.Join(sl, ",")))
+	return fmt.Sprintf("env net=%d chain=%d root=%d coms=%s mins=%s slashed=%s", net, chain, root, dash(strings.Join(coms, "+")), dash(strings.Join(mins, ",")), dash(strings.Join(sl, ",")))
 }
 
 func dash(s string) string {
@@ -486,6 +486,7 @@ func (ec *evCase) oracleImplicated(what string, ds []*lib.DoubleSigner, opLine s
 			// only when the expiry bound comes from the real state machine the way the node is wired
 			// (in table mode the harness itself dictates the bound, including wrong ones)
 			if ec.wired && ec.expired(h) {
+				ec.o.Count("oracle:expired-accepted")
 				sig := "C14:expired-evidence-accepted"
 				fail(ec.o, sig, fmt.Sprintf("%s accepts evidence of root height %d; the root chain is at %d with unstaking period %d (minimum evidence height %d)", what, h, ec.curRoot, ec.unstaking, ec.curRoot-ec.unstaking),
 					map[string]any{"op": opLine, "wired": ec.wired, "history": tail(ec.hist, 40)})
@@ -526,7 +527,7 @@ func (ec *evCase) process(es []ev, tag string) []*lib.DoubleSigner {
 	ec.op(op, res)
 	ec.o.Count("process:" + strings.SplitN(res, " ", 2)[0])
 	ec.o.Count("pair:" + tag)
-	ec.o.Nontrivial(op + "|" + ec.c.envLine(net, chain))
+	ec.o.Nontrivial(op + "|" + ec.c.envLine(net, chain, ec.b.RootHeight))
 	if res == "panic" {
 		fail(ec.o, "C14:process-dse-panic", "ProcessDSE panicked", map[string]any{"op": op, "history": tail(ec.hist, 40)})
 	}
